@@ -161,6 +161,7 @@ static bool run_history(const Cfg& cfg, const Run& run, const std::vector<Op>& h
                 fail("roundtrip|" + which + "|" + field, tag + ": " + which + " at " + std::to_string(p) + " expected ..." + ctx + "... got ..." + (r_ok ? ld : rd).substr(a, 120));
             }
             for (size_t bi = 0; bi < rf.blocks.size(); bi++) if (!rf.blocks[bi].unreachable.empty()) fail("unreachable-table-entry|" + rf.blocks[bi].unreachable[0].substr(0, rf.blocks[bi].unreachable[0].find('[')), tag + " block " + std::to_string(bi) + ": " + rf.blocks[bi].unreachable[0] + " not referenced by any item");
+            for (size_t bi = 0; bi < rf.blocks.size(); bi++) if (!rf.blocks[bi].duplicates.empty()) fail("duplicate-table-entry|" + rf.blocks[bi].duplicates[0].substr(0, rf.blocks[bi].duplicates[0].find('[')), tag + " block " + std::to_string(bi) + ": " + rf.blocks[bi].duplicates[0]);
             R.outcome("blocks=" + std::to_string(std::min<size_t>(rf.blocks.size(), 4)));
         } else if (ld == expect_dump) R.outcome("lib-reads-what-ref-rejects");
     }
